@@ -490,6 +490,7 @@ type ctx struct {
 	r           *common.Run
 	pki         *pki
 	teeNegFails int
+	sk          bool // features.go: a skipped required feature that became negotiable makes the list an error
 	rr          bool // features.go ORs Ready into a result that carries a new ReadWriter
 	rt          bool // features.go re-tests the masks of a cached feature when it is selected
 }
